@@ -804,7 +804,7 @@ class CScript(bytes):
                 n += 1
             elif opcode in (OP_CHECKMULTISIG, OP_CHECKMULTISIGVERIFY):
                 if fAccurate and (OP_1 <= lastOpcode <= OP_16):
-                    n += opcode.decode_op_n()
+                    n += CScriptOp(lastOpcode).decode_op_n()
                 else:
                     n += 20
             lastOpcode = opcode
